@@ -7,6 +7,7 @@ From display/graphics.py:
     order of checked names is pinned: anything else refuses);
   * Graphics._draw_step - the two scaling statements `int(math.trunc(scale*s / 4.))`, the test for "no
     rotation", and the 180 degree branch (the 90/270/general branches use floats: excluded by the property);
+  * Graphics._draw  - the expression the C command stores as the colour (clamped to the mode's attributes);
   * Graphics.reset  - the initial scale and angle.
 From mlparser.py / base/tokens.py (dumped by importing the module): blanks, DIGITS, LETTERS, NAME_CHARS, SIGILS.
 From base/error.py: IFC, TYPE_MISMATCH.
@@ -123,6 +124,19 @@ def generate(repo):
         raise Refuse('Graphics._draw: range_check calls changed: %r' % (got,))
     for (name, lo, hi), (_, cname) in zip(got, EXPECTED_RANGES):
         t.emit('Definition %s : Z * Z := (%s, %s).' % (cname, zlit(lo), zlit(hi)))
+
+    # --- Graphics._draw: what the C command stores as the colour (`self._last_attr = <expr>` after the
+    #     range check of attr; the other assignment in that branch is the constant 0 of "C;")
+    assigns = [n for n in ast.walk(fn) if isinstance(n, ast.Assign) and len(n.targets) == 1
+               and t.dotted(n.targets[0]) == 'self._last_attr']
+    assigns.sort(key=lambda n: n.lineno)
+    if len(assigns) != 2 or not (isinstance(assigns[0].value, ast.Constant) and assigns[0].value.value == 0):
+        raise Refuse('Graphics._draw: assignments to self._last_attr changed')
+    term, ty = t.expr(assigns[1].value, {'attr': ('v_attr', 'Z'), 'self._num_attr': ('v_num_attr', 'Z')})
+    if ty != 'Z':
+        raise Refuse('Graphics._draw: colour expression is not an integer')
+    t.emit('(* pcbasic/basic/display/graphics.py:%d *)' % assigns[1].lineno)
+    t.emit('Definition draw_colour (v_num_attr : Z) (v_attr : Z) : Z := %s.' % term)
 
     # --- Graphics._draw: direction table
     t.function('Graphics._draw', coqname='draw_dir_offset', param_types={'c': 'Z', 'step': 'Z'},
